@@ -66,7 +66,7 @@ func LoadEngine(repo, specDir string) (*Engine, error) {
 	if nerr > 0 {
 		return nil, fmt.Errorf("%d package load errors (does /repo build with -tags verif?)", nerr)
 	}
-	prog, spkgs := ssautil.AllPackages(pkgs, ssa.InstantiateGenerics)
+	prog, spkgs := ssautil.AllPackages(pkgs, ssa.InstantiateGenerics|ssa.GlobalDebug)
 	modPath := ""
 	for _, p := range pkgs {
 		if p.Module != nil {
@@ -153,13 +153,13 @@ func shortFuncName(fn *ssa.Function) string {
 }
 
 // Verify translates one function under contract and returns its translator with all obligations.
-func (e *Engine) Verify(fn *ssa.Function, c *Contract) *Tr {
+func (e *Engine) Verify(fn *ssa.Function, c *Contract, prop string) *Tr {
 	// Heaps are discovered during translation; a havoc must cover heaps that are first read after it. Translate
 	// until the set of heap names is stable (normally two passes) with all names declared up front.
 	pre := map[string]string{}
 	var tr *Tr
 	for pass := 0; pass < 5; pass++ {
-		tr = e.verifyPass(fn, c, pre)
+		tr = e.verifyPass(fn, c, pre, prop)
 		grown := false
 		for k, s := range tr.sorts {
 			if _, ok := pre[k]; !ok {
@@ -174,8 +174,9 @@ func (e *Engine) Verify(fn *ssa.Function, c *Contract) *Tr {
 	return tr
 }
 
-func (e *Engine) verifyPass(fn *ssa.Function, c *Contract, pre map[string]string) *Tr {
+func (e *Engine) verifyPass(fn *ssa.Function, c *Contract, pre map[string]string, prop string) *Tr {
 	tr := &Tr{
+		prop: prop,
 		eng: e, top: fn, topShort: shortFuncName(fn), contract: c,
 		declared: map[string]bool{}, sorts: map[string]string{}, obls: map[string]*Obl{},
 		init: &State{H: map[string]string{}}, used: map[string]bool{}, uninterp: map[string]bool{},
@@ -203,6 +204,12 @@ func (e *Engine) verifyPass(fn *ssa.Function, c *Contract, pre map[string]string
 	for i, p := range fn.Params {
 		v := tr.freshValNamed(p.Type(), "p/"+p.Name())
 		tr.constrainParam(v, i == 0 && fn.Signature.Recv() != nil)
+		if sp, ok := c.ParamSpecs[p.Name()]; ok {
+			v.Prov = &FuncProv{Spec: sp}
+		}
+		if sp, ok := c.MaybeSpecs[p.Name()]; ok {
+			v.Prov = &FuncProv{Spec: sp, Maybe: true}
+		}
 		args = append(args, v)
 	}
 	var binds []Val
@@ -239,6 +246,22 @@ func (e *Engine) verifyPass(fn *ssa.Function, c *Contract, pre map[string]string
 		}
 		f.assume(t)
 	}
+	for _, sn := range c.Conforms {
+		S := e.db.Contracts[sn]
+		if S == nil {
+			tr.errorf("%s: conforms to unknown spec %s", fn.Name(), sn)
+			continue
+		}
+		envS := f.bindContractEnv(S, fn.Signature, false, args, nil)
+		envS.old = tr.init
+		for _, cl := range S.Requires {
+			if t, err := envS.boolExpr(cl.E); err == nil {
+				f.assume(t)
+			} else {
+				tr.errorf("%s: requires of spec %s: %v", fn.Name(), sn, err)
+			}
+		}
+	}
 	// axioms
 	for _, ax := range e.db.Axioms {
 		t, err := env.boolExpr(ax.E)
@@ -251,8 +274,44 @@ func (e *Engine) verifyPass(fn *ssa.Function, c *Contract, pre map[string]string
 	entry := f.cur
 	rets := f.run(entry, args, binds)
 	var retRs []string
-	for _, r := range rets {
+	for ri := range rets {
+		r := &rets[ri]
 		retRs = append(retRs, r.pp.R)
+		// ghost assignments at exit
+		if len(c.GhostSets) > 0 {
+			r.pp.St = r.pp.St.clone()
+			genv := f.contractEnvTop(c, args, binds, r.results)
+			genv.cur = r.pp.St
+			genv.old = tr.init
+			for _, gs := range c.GhostSets {
+				if err := tr.applyGhostSet(genv, gs, r.pp.St); err != nil {
+					tr.errorf("%s: ghostset: %v", fn.Name(), err)
+				}
+			}
+		}
+		// conformance to named specs
+		for _, sn := range c.Conforms {
+			S := e.db.Contracts[sn]
+			if S == nil {
+				continue
+			}
+			f.cur = r.pp
+			envS := f.bindContractEnv(S, fn.Signature, false, args, r.results)
+			envS.cur = r.pp.St
+			envS.old = tr.init
+			for i, cl := range S.Ensures {
+				t, err := envS.boolExpr(cl.E)
+				if err != nil {
+					tr.errorf("%s: ensures of spec %s: %v", fn.Name(), sn, err)
+					continue
+				}
+				lbl := cl.Label
+				if lbl == "" {
+					lbl = fmt.Sprintf("post%d", i+1)
+				}
+				f.addSite(cl.Prop, "conforms."+sn+"."+lbl, "conformance", cl.Src, r.sig, sAnd(r.pp.R, sNot(t)))
+			}
+		}
 		env := f.contractEnvTop(c, args, binds, r.results)
 		env.cur = r.pp.St
 		env.old = tr.init
@@ -510,4 +569,90 @@ func bindFreeVar(tr *Tr, env *Env, fv *ssa.FreeVar, cell Val) {
 		}
 	}
 	env.vars[fv.Name()] = cell
+}
+
+func (tr *Tr) applyGhostSet(env *Env, gs GhostSet, st *State) error {
+	val, err := env.expr(gs.Value.E)
+	if err != nil {
+		return err
+	}
+	switch gs.Target.K {
+	case EIdent:
+		g := tr.eng.db.Ghosts[gs.Target.Name]
+		if g == nil {
+			return fmt.Errorf("unknown ghost %s", gs.Target.Name)
+		}
+		tr.stateSet(st, "G/"+g.Name, ghostSort(g.Sort), val.T)
+		return nil
+	case EIndex:
+		if gs.Target.A.K == EIdent {
+			g := tr.eng.db.Ghosts[gs.Target.A.Name]
+			if g == nil {
+				return fmt.Errorf("unknown ghost %s", gs.Target.A.Name)
+			}
+			k, err := env.expr(gs.Target.Bx)
+			if err != nil {
+				return err
+			}
+			srt := ghostSort(g.Sort)
+			tr.stateSet(st, "G/"+g.Name, srt, tr.define("gset", srt, sSto(tr.stateGet(st, "G/"+g.Name, srt), k.T, val.T)))
+			return nil
+		}
+	}
+	return fmt.Errorf("unsupported ghostset target %s", gs.Target)
+}
+
+// confFact: facts about which named specs a function value is declared to conform to.
+func (tr *Tr) confFacts(fnTerm string, fn *ssa.Function) {
+	declared := map[string]bool{}
+	if c := tr.eng.db.Contracts[fn.String()]; c != nil {
+		for _, s := range c.Conforms {
+			declared[s] = true
+		}
+	}
+	for _, s := range tr.eng.confSpecs() {
+		p := tr.declareFun("conf/"+s, []string{"Int"}, "Bool")
+		if declared[s] {
+			tr.fact("(" + p + " " + fnTerm + ")")
+		} else {
+			tr.fact("(not (" + p + " " + fnTerm + "))")
+		}
+	}
+}
+
+// confSpecs: every spec name used in a `maybe` declaration or a `conforms` declaration.
+func (e *Engine) confSpecs() []string {
+	set := map[string]bool{}
+	for _, c := range e.db.Contracts {
+		for _, ss := range c.MaybeSpecs {
+			for _, s := range strings.Split(ss, "|") {
+				set[s] = true
+			}
+		}
+		for _, s := range c.Conforms {
+			set[s] = true
+		}
+	}
+	var out []string
+	for s := range set {
+		out = append(out, s)
+	}
+	sort.Strings(out)
+	return out
+}
+
+func (e *Engine) namedType(full string) types.Type {
+	i := strings.LastIndex(full, ".")
+	if i < 0 {
+		return nil
+	}
+	path, name := full[:i], full[i+1:]
+	for _, p := range e.prog.AllPackages() {
+		if p.Pkg.Path() == path {
+			if o := p.Pkg.Scope().Lookup(name); o != nil {
+				return o.Type()
+			}
+		}
+	}
+	return nil
 }
